@@ -372,6 +372,108 @@ def _install():
             out = out + string[pos:]
             return flatten(out), n
 
+    # ---- the same rebuilt operations at the level of compiled patterns: code that precompiles its internal regexes
+    #      (`from re import compile`, module-level `X = re.compile(..)`) reaches re.Pattern.sub / findall / split / finditer
+    #      directly, and module-level re.sub(..) etc. end there as well. Concrete subjects keep CrossHair's stock patch.
+    PR = core._PATCH_REGISTRATIONS
+    stock = {n: PR[getattr(re.Pattern, n)] for n in ("finditer", "findall", "split", "sub", "subn")}
+    _rwcache = {}
+
+    def _rwp(patt):
+        with NoTracing():
+            src = patt.pattern
+            if not isinstance(src, str) or src not in _REWRITE:
+                return patt
+            key = (src, patt.flags)
+            if key not in _rwcache:
+                _rwcache[key] = re.compile(_REWRITE[src], patt.flags)
+            return _rwcache[key]
+
+    def _real(name, self, *a):
+        # concrete subject: the real C method, untraced (the stock patches re-enter the patched method for concrete subjects)
+        with NoTracing():
+            return getattr(re.Pattern, name)(self, *[realize(x) for x in a])
+
+    def p_finditer(self, string, *a):
+        if not _is_sym(string):
+            return _real("finditer", self, string, *a)
+        return (_FlatMatch(m) for m in stock["finditer"](self, string, *a))
+
+    def p_findall(self, string, *a):
+        if not _is_sym(string):
+            return _real("findall", self, string, *a)
+        with NoTracing():
+            ng = self.groups
+        if ng:
+            raise NotImplementedError("findall: pattern with groups")
+        return [flatten(m.group(0)) for m in stock["finditer"](self, string, *a)]
+
+    def p_split(self, string, maxsplit=0):
+        if not _is_sym(string):
+            return _real("split", self, string, maxsplit)
+        with NoTracing():
+            ng = self.groups
+        if ng or maxsplit:
+            raise NotImplementedError("split: groups / maxsplit")
+        out, pos = [], 0
+        for m in stock["finditer"](self, string):
+            out.append(flatten(string[pos:m.start()]))
+            pos = m.end()
+        out.append(flatten(string[pos:]))
+        return out
+
+    def p_subn(self, repl, string, count=0):
+        if os.environ.get('SYMX_RELIB_SUB'):
+            return stock["subn"](self, repl, string, count)
+        if not _is_sym(string):
+            if callable(repl) or not _is_sym(repl):
+                return _real("subn", self, repl, string, count)
+            return _real("subn", self, realize(repl), string, count)
+        out, pos, n = "", 0, 0
+        for m in stock["finditer"](_rwp(self), string):
+            if count and n >= count:
+                break
+            if callable(repl):
+                r = repl(_FlatMatch(m))
+            elif chr(92) not in repl:
+                r = repl
+            elif repl == chr(92) * 2:
+                r = chr(92)
+            else:
+                raise NotImplementedError("sub: template %r" % (repl,))
+            out = out + string[pos:m.start()] + r
+            pos = m.end()
+            n += 1
+        out = out + string[pos:]
+        return flatten(out), n
+
+    def p_sub(self, repl, string, count=0):
+        return p_subn(self, repl, string, count)[0]
+
+    PR[re.Pattern.finditer] = p_finditer
+    PR[re.Pattern.findall] = p_findall
+    PR[re.Pattern.split] = p_split
+    PR[re.Pattern.subn] = p_subn
+    PR[re.Pattern.sub] = p_sub
+
+    # re.compile of a SYMBOLIC pattern text (the fixed-width probe of look-behind assertions): the real parser's verdict plus
+    # the look-behind width rule, instead of realising the text
+    stock_compile = PR[re._compile]
+
+    def p_compile(pattern, flags=0, *a):
+        if _is_sym(pattern):
+            pattern = flatten(pattern)
+        if not _is_sym(pattern):
+            return stock_compile(pattern, flags, *a)
+        fl = flags
+        with NoTracing():
+            if isinstance(fl, re.RegexFlag):
+                fl = fl.value
+        tree = sp.parse(pattern, realize(fl))
+        _widths(tree)
+        return _CompiledStub()
+    PR[re._compile] = p_compile
+
     shim = ReShim()
     # every module-level name of the two modules that is bound to the `re` module (`import re as _re`, `import re`, ...)
     # is rebound to the shim; a module that imports single functions (`from re import compile`) keeps CrossHair's stock model
